@@ -8,16 +8,16 @@ hook_commits = [l.strip() for l in open(os.path.join(ROOT, "tools/hook_commits.t
 
 T = {
  "C01": ("exploration", "session", "history checker over boundary event log vs. simulated MPD server (reply = pure function of request id)",
-         "Runs the real tokio client against a simulated MPD server on a paused-clock current-thread runtime with seeded select!; every request carries a unique id and the reply is recomputed from it; checks own-reply, per-caller order, partial list failure, undisturbed others under cancellation; directed scenarios, bounded-exhaustive timing grids, random ones (back-pressure, dropped / unpolled events receiver, stalled shutdown, password connects), a server that rejects idle, real-thread stress in the thorough tier. Every third case runs under a TRACE tracing subscriber. Holds on the explored schedules only.",
+         "Runs the real tokio client against a simulated MPD server on a paused-clock current-thread runtime with seeded select!; every request carries a unique id and the reply is recomputed from it; checks own-reply, per-caller order, partial list failure, undisturbed others under cancellation; directed scenarios, bounded-exhaustive timing grids, random ones (back-pressure, dropped / unpolled events receiver, stalled shutdown, password connects), a server that rejects idle, a flood of 129-1000 simultaneous requests, servers announcing versions of many shapes (protocol_version() must be verbatim), real-thread stress in the thorough tier. Every error value handed to a caller is printed and its source chain followed. Every third case runs under a TRACE tracing subscriber. Holds on the explored schedules only.",
          "Simulated transport/server (harness) model MPD's idle/noidle/command-list semantics; schedules are those of a cooperative single-thread executor plus real-thread stress in the thorough tier."),
  "C02": ("exploration", "wire", "metamorphic differential monitor (segmentation independence) + receive-buffer invariant hook",
-         "Every generated stream is decoded whole (reference) and under byte-wise, random k-way and (exhaustive or edge-windowed) 2-way splits on the blocking and async connections; results must be identical; buffer bookkeeping invariants asserted at the verif-hooks probes. Sampled streams, exhaustive split points for short streams.",
+         "Every generated stream is decoded whole (reference) and under byte-wise, random k-way and (exhaustive or edge-windowed) 2-way splits on the blocking and async connections; results must be identical; 'exact-fill' streams (complete responses ending exactly where the receive buffer is full, then a silent peer) must come out completely, also when read in one piece on the async connection; buffer bookkeeping invariants asserted at the verif-hooks probes. Sampled streams, exhaustive split points for short streams.",
          "Read boundary forced after the greeting line; whole-stream blocking run is the reference."),
  "C03": ("exploration", "wire", "reference-encoder round-trip monitor",
          "Random abstract sessions are serialised by an independent reference encoder and must be decoded by the real connections into exactly the same frames/fields/binary/error, followed by Ok(None).",
          "Reference encoder written from the MPD protocol document; normalisation at documented non-injective points."),
  "C04": ("exploration", "session", "history checker: event sequence == concatenation of changed: lines delivered",
-         "Sessions with dense notification schedules, split idle replies and racing requests; the sequence from ConnectionEvents::next must equal the changed lines the simulated server wrote in idle/noidle replies; at the quiescent end of a fault-free session everything reported must have arrived; sessions ending in a transport fault must still deliver every change of a reply the client completely read.",
+         "Sessions with dense notification schedules, split idle replies and racing requests; the sequence from ConnectionEvents::next must equal the changed lines the simulated server wrote in idle/noidle replies; at the quiescent end of a fault-free session everything reported must have arrived; sessions ending in a transport fault must still deliver every change of a reply the client completely read; in sessions without callers ONE read failing with ErrorKind::Interrupted inside chopped idle replies: the client may stop or carry on, but must not deliver later changes of a reply whose earlier lines it lost.",
          "Simulated server; set and list semantics for pending changes both generated."),
  "C05": ("exploration", "session", "online protocol-state monitor in the simulated server + offline outstanding-request checker",
          "Every line the client writes is judged against what had been completely delivered to it (<=1 outstanding, only noidle during idle, first line idle/password, bounded re-idle in virtual time).",
@@ -38,31 +38,31 @@ T = {
          "Every cut offset of every generated well-formed stream and every prefix of valid greetings, three segmentations, both flavours; big streams (buffer-edge and 66 KB - 2.3 MB responses) with sampled cuts.",
          "Boundaries recorded by the reference encoder."),
  "C11": ("exploration", "cmd", "reference-model monitor: ports of MPD's tokenizer and filter-expression parser vs. mirror tree",
-         "Random trees (depth/width <= 6) and exhaustive short values over the special alphabet, through find/count/list; parsed expression must equal the mirror tree modulo AND flattening.",
+         "Random trees (depth/width <= 6) and exhaustive short values over the special alphabet, through find/count/list and eight longer builder paths; parsed expression must equal the mirror tree modulo AND flattening; filters built from intermediates that were rendered / cloned before must denote the same; a filter with a line feed in a value must be refused or sent faithfully by all eleven paths, never written altered or left out.",
          "Port of MPD song/Filter.cxx ParseExpression (trusted base)."),
  "C12": ("exploration", "typed", "panic monitor (catch_unwind in child processes) over every command x frame source, both feature builds",
-         "Every predefined command and typed list shape is fed its own, foreign, mutated and edge-valued frames produced by the real parser; result and all accessors must return without panic.",
+         "Every predefined command and typed list shape is fed its own, foreign, mutated and edge-valued frames produced by the real parser; result and all accessors must return without panic; directed grid (every field x every edge value, once more with another key absent), requests with parameters at the top of their domain, 20-40 thousand-line replies on a 256 KiB stack.",
          "Frames can only come from the real parser, so keys outside its alphabet cannot be produced."),
  "C13": ("exploration", "cmd+session", "wire-grammar monitor for list framing + token-pairing monitor through the client",
-         "Lists of 1-50 raw commands compared byte-wise with individually rendered lines; typed tuples of every arity 1-8 and vectors executed against the simulated server whose replies carry a token of the command's own argument.",
+         "Lists of 1-50 raw commands (built through new/command/add and Extend from exact-size, filter/flat_map/from_fn, chained and empty iterators; one case in four after failed writes on another connection of the same thread) compared byte-wise with individually rendered lines; lists of 2-33 MiB are still one block; typed tuples of every arity 1-8 and vectors executed against the simulated server whose replies carry a token of the command's own argument.",
          "Simulated server."),
  "C14": ("exploration", "typed+session", "reference-decode monitor over abstract song listings (captured replies and through the real client)",
          "Random listings with interleaved directory/playlist entries, repeated tags, Time/duration in either order, through all six listing commands, both feature builds; every 8th case through the real client against the simulated server, after a failed multi-read command list and after the re-idle window.",
          "Scalar attributes not repeated within a song; URLs non-empty."),
  "C15": ("exploration", "cmd", "per-command expectation table (from the MPD protocol reference) applied after tokenisation",
-         "Every constructor path on an exhaustive boundary grid of integers/ranges/durations/enums; arguments compared semantically (range sets, ms rounding, clamping).",
+         "Every constructor path on an exhaustive boundary grid of integers/ranges/durations/enums; arguments compared semantically (range sets, ms rounding, clamping); strings with a line feed through every string parameter must be refused or sent faithfully.",
          "Table typed by hand from the protocol reference (trusted base)."),
  "C16": ("exploration", "typed", "schema-driven reference monitor over abstract replies",
-         "All 2^11 optional-field subsets of status, permutations, boundary numbers, enum spellings, stickers with '=', grouped count/list; domain violations must yield errors.",
+         "All 2^11 optional-field subsets of status, permutations, boundary numbers, enum spellings, stickers with '=', grouped count/list; domain violations must yield errors; every provided iterator method (nth, nth_back, last, count, len, size_hint, skip, step_by, rev, ...) of the list iterators is compared with plain iteration.",
          "Schemas typed from the protocol reference."),
  "C17": ("exploration", "session", "history checker: reassembled bytes, MIME, request offsets, fallback rules",
-         "Picture sizes x chunk limits x sources x MIME x error codes with concurrent callers and notifications through the simulated server.",
+         "Picture sizes x chunk limits x sources x MIME x error codes with concurrent callers and notifications through the simulated server, which announces old and new protocol versions.",
          "Well-behaved server (no 0-byte chunk before the end, constant size)."),
  "C18": ("exploration", "wire+session", "greeting reference + ordering checker on the session log",
-         "Greeting strings of every shape under all 2-way splits on both flavours and all connect entry points; password verdicts OK/ACK/close/garbage with delayed, chopped replies.",
+         "Greeting strings of every shape (incl. dotted numbers with leading zeros) under all 2-way splits on both flavours and all connect entry points; more bytes arriving in the same read as the greeting must not change the verdict; password verdicts OK/ACK/close/garbage with delayed, chopped replies.",
          "Greeting grammar from the protocol document."),
  "C19": ("exploration", "wire", "lock-step Vec-based model of Frame/Response",
-         "Random operation histories (find/get/take_binary/iteration from both ends, the provided iterator methods nth/nth_back/skip/step_by/last/count/rev/fold on all four iterator types) compared step by step with the model.",
+         "Random operation histories (find/get/take_binary/iteration from both ends, the provided iterator methods nth/nth_back/skip/step_by/last/count/rev/fold on all four iterator types) compared step by step with the model; Debug output of responses, frames and errors must return.",
          "Frames bounded at 40 fields."),
  "C20": ("exploration", "cmd+session", "exhaustive pair monitor over name tables",
          "All pairs of named/catch-all tags and subsystems (Eq, Hash with three hashers, Ord, map lookup), all short candidate tag strings, EVERY Unicode scalar value inside a name, names of every length up to 70 and up to 5000 bytes, names tagging tools use, subsystem names through a real session.",
